@@ -99,7 +99,7 @@ Definition row_info (r : wrow) : minfo :=
   {| mi_trait := w_trait r; mi_method := w_method r; mi_has_default := w_provided r;
      mi_partial_by_default := w_partial_by_default r;
      (* generated mirror impls have no unmock_with; lib.rs's hand-written report has the arm *)
-     mi_has_unmock_arm := w_partial_by_default r; mi_out_clone := true |}.
+     mi_has_unmock_arm := w_partial_by_default r; mi_out_clone := true; mi_more_leaves := 0 |}.
 
 Definition wobs_eqb (a b : wobs) : bool :=
   match a, b with
